@@ -612,20 +612,7 @@ pub mod verif {
 
         /// Read-only dump of `to_be_fetched` and `on_going_fetches` taken against one `Instant::now()`.
         pub fn dump(&self) -> (Vec<PendingEntry>, Vec<OngoingEntry>) {
-            let now = Instant::now();
-            let pending = self
-                .inner
-                .to_be_fetched
-                .iter()
-                .map(|((k, t, h), d)| (k.clone(), t.clone(), *h, remaining_ms(*d, now)))
-                .collect();
-            let ongoing = self
-                .inner
-                .on_going_fetches
-                .iter()
-                .map(|((k, t), (h, d))| (k.clone(), t.clone(), *h, remaining_ms(*d, now)))
-                .collect();
-            (pending, ongoing)
+            dump_of(&self.inner)
         }
 
         pub fn to_be_fetched(&self) -> Vec<PendingEntry> {
@@ -655,13 +642,91 @@ pub mod verif {
 
         /// Let `ms` milliseconds pass for the fetcher: every stored deadline moves `ms` into the past.
         pub fn age(&mut self, ms: u64) {
-            let d = Duration::from_millis(ms);
-            for deadline in self.inner.to_be_fetched.values_mut() {
-                *deadline -= d;
-            }
-            for (_, deadline) in self.inner.on_going_fetches.values_mut() {
-                *deadline -= d;
-            }
+            age_of(&mut self.inner, ms)
         }
+    }
+
+    fn dump_of(fetcher: &ReplicationFetcher) -> (Vec<PendingEntry>, Vec<OngoingEntry>) {
+        let now = Instant::now();
+        let pending = fetcher
+            .to_be_fetched
+            .iter()
+            .map(|((k, t, h), d)| (k.clone(), t.clone(), *h, remaining_ms(*d, now)))
+            .collect();
+        let ongoing = fetcher
+            .on_going_fetches
+            .iter()
+            .map(|((k, t), (h, d))| (k.clone(), t.clone(), *h, remaining_ms(*d, now)))
+            .collect();
+        (pending, ongoing)
+    }
+
+    fn age_of(fetcher: &mut ReplicationFetcher, ms: u64) {
+        let d = Duration::from_millis(ms);
+        for deadline in fetcher.to_be_fetched.values_mut() {
+            *deadline -= d;
+        }
+        for (_, deadline) in fetcher.on_going_fetches.values_mut() {
+            *deadline -= d;
+        }
+    }
+
+    // ---- views of the fetcher OWNED BY A REAL `SwarmDriver` (its field is crate-private), so that the
+    // ---- PutLocalRecord arm of `handle_local_cmd` can be driven and observed from outside
+
+    /// Dump of the driver's fetcher: both maps with remaining milliseconds, range, farthest.
+    #[allow(clippy::type_complexity)]
+    pub fn driver_fetcher_dump(
+        driver: &crate::SwarmDriver,
+    ) -> (Vec<PendingEntry>, Vec<OngoingEntry>, Option<U256>, Option<U256>) {
+        let f = &driver.replication_fetcher;
+        let (pending, ongoing) = dump_of(f);
+        (
+            pending,
+            ongoing,
+            f.distance_range,
+            f.farthest_acceptable_distance
+                .as_ref()
+                .map(convert_distance_to_u256),
+        )
+    }
+
+    /// `age` for the driver's fetcher.
+    pub fn driver_fetcher_age(driver: &mut crate::SwarmDriver, ms: u64) {
+        age_of(&mut driver.replication_fetcher, ms)
+    }
+
+    /// What `add_keys_to_replication_fetcher` does once the holder passed its closeness gate: the
+    /// driver's fetcher gets the advert together with the driver's own record store index.
+    /// Returns the keys to fetch (the caller decides whether to emit them).
+    pub fn driver_fetcher_add_keys(
+        driver: &mut crate::SwarmDriver,
+        holder: PeerId,
+        incoming_keys: Vec<(NetworkAddress, RecordType)>,
+    ) -> Vec<(PeerId, RecordKey)> {
+        let all_keys = driver
+            .swarm
+            .behaviour_mut()
+            .kademlia
+            .store_mut()
+            .record_addresses_ref()
+            .clone();
+        driver
+            .replication_fetcher
+            .add_keys(holder, incoming_keys, &all_keys)
+    }
+
+    /// The driver's record store: number of records held and its farthest record, if any.
+    pub fn driver_store_len_and_farthest(
+        driver: &mut crate::SwarmDriver,
+    ) -> (usize, Option<RecordKey>) {
+        let store = driver.swarm.behaviour_mut().kademlia.store_mut();
+        (store.record_addresses_ref().len(), store.get_farthest())
+    }
+
+    /// Distance of a record key to the driver's own id, as its fetcher computes it.
+    pub fn driver_distance_to_self(driver: &crate::SwarmDriver, key: &RecordKey) -> U256 {
+        let self_addr = NetworkAddress::from_peer(driver.self_peer_id);
+        convert_distance_to_u256(&self_addr.distance(&NetworkAddress::from_record_key(key)))
     }
 }
